@@ -386,6 +386,13 @@ Module Bin.
       | _ => k
       end.
 
+    (** validate_size (algorithm/mod.rs:133-160, since 1cc30f2): an empty shape is accepted only if the
+        product of its non-zero dimensions fits isize; the limits on non-empty shapes (u32::MAX
+        elements, UIUA_MAX_MB) are subsumed by the "remaining input" guards of parse_payload *)
+    Definition nz_prod (sh : list Z) : Z := fold_right (fun d acc => if d =? 0 then acc else d * acc) 1 sh.
+    Definition count_of (sh : list Z) : option Z :=
+      if existsb (Z.eqb 0) sh then (if 2 ^ 63 <? nz_prod sh then None else Some 0) else Some (zprod sh).
+
     (** from_binary_impl, in three parsers.  [rec] is the recursive call at depth + 1. *)
     Section Parsers.
       Variable rec : list Z -> option (bval * list Z).
@@ -467,7 +474,8 @@ Module Bin.
           obind (parse_meta has_m bs1) (fun '(fl, lbl, keys, bsm) =>
           obind (parse_shape bsm) (fun '(sh, bsd) =>
           let h := {| alloc := has_m; flags := fl; label := lbl; shape := sh |} in
-          obind (parse_payload code h (zprod sh) bsd) (fun '(v, rest) => finish v h keys rest)))
+          obind (count_of sh) (fun count =>
+          obind (parse_payload code h count bsd) (fun '(v, rest) => finish v h keys rest))))
         end.
     End Parsers.
 
